@@ -11,11 +11,16 @@ package c06
 
 import (
 	"crypto"
+	"crypto/ecdsa"
+	"crypto/elliptic"
+	"crypto/rand"
 	"crypto/tls"
 	"crypto/x509"
+	"crypto/x509/pkix"
 	"errors"
 	"fmt"
 	"io"
+	"math/big"
 	"net"
 	"os"
 	"strings"
@@ -47,6 +52,10 @@ type Worker struct {
 	Sni  string `json:"sni,omitempty"`
 	Hs   bool   `json:"hs,omitempty"`   // real handshake instead of a direct GetCertificate call
 	Reps int    `json:"reps,omitempty"` // number of back-to-back requests (direct only)
+	// Fresh: after the repetitions, this many rounds of "request a name nobody
+	// asked for before this burst (SNI f<j>.s<step>.fresh.test, the same
+	// sequence for every worker), then the own name, then the new name again"
+	Fresh int `json:"fresh,omitempty"`
 }
 
 // Op is one step of a history.
@@ -72,6 +81,7 @@ type Op struct {
 // Case is a history against one mitm.Config.
 type Case struct {
 	Org   string `json:"org"`
+	CA    string `json:"ca,omitempty"`    // "" = RSA authority from mitm.NewAuthority, "ecdsa" = P-256 authority
 	Short bool   `json:"short,omitempty"` // validity 2 s instead of the default hour
 	Hosts []Host `json:"hosts"`
 	Ops   []Op   `json:"ops"`
@@ -84,26 +94,67 @@ var fixedDecoys = []string{"c06-decoy.invalid", "192.0.2.77", "2001:db8::77"}
 
 // ---------------------------------------------------------------- authority (once per process)
 
+// ca is one configured authority. "rsa" comes from mitm.NewAuthority; "ecdsa"
+// is a P-256 CA built here (mitm.NewConfig takes any CA certificate and
+// signer) - its signatures cost microseconds instead of a millisecond, which
+// is what lets the concurrent check push thousands of issuances per burst.
+type ca struct {
+	cert *x509.Certificate
+	key  crypto.PrivateKey
+	pool *x509.CertPool
+}
+
 var (
 	authOnce sync.Once
-	authCA   *x509.Certificate
-	authKey  crypto.PrivateKey
-	authPool *x509.CertPool
+	auths    = map[string]*ca{}
 	authErr  error
 )
 
-func authority() error {
+func authority(kind string) (*ca, error) {
 	authOnce.Do(func() {
-		ca, priv, err := mitm.NewAuthority("c06.martian.proxy", "C06 Authority", 24*time.Hour)
+		c, priv, err := mitm.NewAuthority("c06.martian.proxy", "C06 Authority", 24*time.Hour)
 		if err != nil {
 			authErr = err
 			return
 		}
-		authCA, authKey = ca, priv
-		authPool = x509.NewCertPool()
-		authPool.AddCert(ca)
+		auths["rsa"] = &ca{cert: c, key: priv, pool: x509.NewCertPool()}
+		auths["rsa"].pool.AddCert(c)
+
+		ek, err := ecdsa.GenerateKey(elliptic.P256(), rand.Reader)
+		if err != nil {
+			authErr = err
+			return
+		}
+		tmpl := &x509.Certificate{
+			SerialNumber:          big.NewInt(0xC06),
+			Subject:               pkix.Name{CommonName: "c06-ecdsa.martian.proxy", Organization: []string{"C06 ECDSA Authority"}},
+			KeyUsage:              x509.KeyUsageDigitalSignature | x509.KeyUsageCertSign,
+			ExtKeyUsage:           []x509.ExtKeyUsage{x509.ExtKeyUsageServerAuth},
+			BasicConstraintsValid: true,
+			IsCA:                  true,
+			NotBefore:             time.Now().Add(-24 * time.Hour),
+			NotAfter:              time.Now().Add(24 * time.Hour),
+		}
+		raw, err := x509.CreateCertificate(rand.Reader, tmpl, tmpl, ek.Public(), ek)
+		if err != nil {
+			authErr = err
+			return
+		}
+		ec, err := x509.ParseCertificate(raw)
+		if err != nil {
+			authErr = err
+			return
+		}
+		auths["ecdsa"] = &ca{cert: ec, key: ek, pool: x509.NewCertPool()}
+		auths["ecdsa"].pool.AddCert(ec)
 	})
-	return authErr
+	if authErr != nil {
+		return nil, authErr
+	}
+	if kind == "ecdsa" {
+		return auths["ecdsa"], nil
+	}
+	return auths["rsa"], nil
 }
 
 // ---------------------------------------------------------------- naming helpers
@@ -168,12 +219,22 @@ type exec struct {
 	check  string
 	c      Case
 	cfg    *mitm.Config
+	ca     *ca
 	v      kit.Verdict
 	seen   map[string]bool
 	decoys []Host // every identity that appears in the case, plus the fixed ones
 
 	mu          sync.Mutex
 	maxNotAfter time.Time
+
+	// (certificate object, name) pairs already judged in full; only used for
+	// the results of a burst, which hand the same object back thousands of times
+	judged map[judgedKey]bool
+}
+
+type judgedKey struct {
+	cert *tls.Certificate
+	name string
 }
 
 func (x *exec) fail(sig, format string, args ...interface{}) {
@@ -232,7 +293,7 @@ func (x *exec) checkChain(where string, e expectation, chain [][]byte, t0, t1 ti
 			tv = t1
 		}
 	}
-	_, err = leaf.Verify(x509.VerifyOptions{DNSName: e.name, Roots: authPool, Intermediates: inter, CurrentTime: tv})
+	_, err = leaf.Verify(x509.VerifyOptions{DNSName: e.name, Roots: x.ca.pool, Intermediates: inter, CurrentTime: tv})
 	if err != nil {
 		class := "verify-error"
 		var he x509.HostnameError
@@ -255,7 +316,19 @@ func (x *exec) checkChain(where string, e expectation, chain [][]byte, t0, t1 ti
 		x.fail("C06/organization/"+e.shape+"/wrong-organization", "%s: leaf organization %q, configured %q", where, leaf.Subject.Organization, x.c.Org)
 	}
 	// "valid for exactly that host": not for any other identity of the case.
-	for _, d := range x.decoys {
+	decoys := x.decoys
+	if !isIPName(e.name) {
+		// a peer under the same parent (what a wildcard SAN would also cover)
+		// and a child of the name itself
+		if i := strings.IndexByte(e.name, '.'); i >= 0 {
+			peer := "c06-peer" + e.name[i:]
+			decoys = append(decoys[:len(decoys):len(decoys)], Host{Name: peer, Canon: strings.ToLower(peer)})
+		}
+		if len(e.name) < 240 {
+			decoys = append(decoys[:len(decoys):len(decoys)], Host{Name: "c06-child." + e.name, Canon: "c06-child." + e.canon})
+		}
+	}
+	for _, d := range decoys {
 		if d.Canon == e.canon {
 			continue
 		}
@@ -271,13 +344,28 @@ func (x *exec) checkChain(where string, e expectation, chain [][]byte, t0, t1 ti
 type publicKey interface{ Equal(x crypto.PublicKey) bool }
 
 // get performs one direct GetCertificate call and applies the oracle.
-func (x *exec) get(where string, api string, host int, sni string) {
-	e := expect(x.c.Hosts, api, host, sni)
-	where = where + " " + describeReq(x.c.Hosts, api, host, sni)
+// result is one direct GetCertificate call, judged later (concurrent workers
+// first collect, so that the request rate is not throttled by verification).
+type result struct {
+	where  string
+	e      expectation
+	cert   *tls.Certificate
+	err    error
+	t0, t1 time.Time
+}
+
+func (x *exec) request(where string, api string, host int, sni string) result {
+	r := result{e: expect(x.c.Hosts, api, host, sni), where: where + " " + describeReq(x.c.Hosts, api, host, sni)}
 	scfg := x.serverConfig(api, host)
-	t0 := time.Now()
-	cert, err := scfg.GetCertificate(&tls.ClientHelloInfo{ServerName: sni})
-	t1 := time.Now()
+	r.t0 = time.Now()
+	r.cert, r.err = scfg.GetCertificate(&tls.ClientHelloInfo{ServerName: sni})
+	r.t1 = time.Now()
+	return r
+}
+
+// judge applies the oracle to one direct request.
+func (x *exec) judge(r result) {
+	e, where, cert, err := r.e, r.where, r.cert, r.err
 	if e.refuse {
 		if err == nil && cert != nil {
 			cn := "?"
@@ -292,7 +380,7 @@ func (x *exec) get(where string, api string, host int, sni string) {
 		x.fail("C06/verify/"+e.shape+"/get-certificate-error", "%s: GetCertificate failed: %v", where, err)
 		return
 	}
-	leaf := x.checkChain(where, e, cert.Certificate, t0, t1)
+	leaf := x.checkChain(where, e, cert.Certificate, r.t0, r.t1)
 	if leaf == nil {
 		return
 	}
@@ -303,6 +391,30 @@ func (x *exec) get(where string, api string, host int, sni string) {
 	}
 	if pk, ok := leaf.PublicKey.(publicKey); !ok || !pk.Equal(signer.Public()) {
 		x.fail("C06/key/"+e.shape+"/private-key-does-not-match-leaf", "%s: the private key returned with the certificate is not the one certified", where)
+	}
+}
+
+func (x *exec) get(where string, api string, host int, sni string) {
+	x.judge(x.request(where, api, host, sni))
+}
+
+// judgeBurst is judge with the full verification done once per (certificate
+// object, name); a repeated pair only has its validity window compared with
+// the request interval.
+func (x *exec) judgeBurst(r result) {
+	if r.e.refuse || r.err != nil || r.cert == nil || r.cert.Leaf == nil {
+		x.judge(r)
+		return
+	}
+	k := judgedKey{r.cert, r.e.name}
+	if !x.judged[k] {
+		x.judged[k] = true
+		x.judge(r)
+		return
+	}
+	if l := r.cert.Leaf; l.NotAfter.Before(r.t0) || l.NotBefore.After(r.t1) {
+		x.fail("C06/verify/"+r.e.shape+"/outside-validity-window", "%s: certificate valid %s .. %s handed out for a request spanning %s .. %s",
+			r.where, l.NotBefore.Format(time.RFC3339), l.NotAfter.Format(time.RFC3339), r.t0.Format(time.RFC3339Nano), r.t1.Format(time.RFC3339Nano))
 	}
 }
 
@@ -373,7 +485,7 @@ func (x *exec) clientConfig(e expectation, sni string, tls12, std bool) *tls.Con
 		// ServerName doubles as the name to verify; Go sends it as SNI only
 		// when it is not an IP literal, so std is only drawn where that
 		// coincides with the op (SNI == name, or IP host without SNI).
-		cc = &tls.Config{ServerName: e.name, RootCAs: authPool}
+		cc = &tls.Config{ServerName: e.name, RootCAs: x.ca.pool}
 	}
 	if tls12 {
 		cc.MaxVersion = tls.VersionTLS12
@@ -456,6 +568,7 @@ func (x *exec) step(i int, op Op) {
 	case "conc":
 		start := make(chan struct{})
 		var wg sync.WaitGroup
+		results := make([][]result, len(op.Workers))
 		for w, wk := range op.Workers {
 			wg.Add(1)
 			go func(w int, wk Worker) {
@@ -476,20 +589,38 @@ func (x *exec) step(i int, op Op) {
 					reps = 1
 				}
 				for r := 0; r < reps; r++ {
-					x.get(ww, "", wk.Host, wk.Sni)
+					results[w] = append(results[w], x.request(ww, "", wk.Host, wk.Sni))
+				}
+				// never-seen names force issuance while the others keep asking
+				for j := 0; j < wk.Fresh; j++ {
+					results[w] = append(results[w], x.request(ww, "", wk.Host, freshName(i, j)))
+					results[w] = append(results[w], x.request(ww, "", wk.Host, wk.Sni))
+					results[w] = append(results[w], x.request(ww, "", wk.Host, freshName(i, j)))
 				}
 			}(w, wk)
 		}
 		close(start)
 		wg.Wait()
+		for _, rs := range results {
+			for _, r := range rs {
+				x.judgeBurst(r)
+			}
+		}
 	}
 }
 
+// freshName is shared by the workers of a burst: they all walk the same
+// sequence of new names, so issuance of a name races with requests for it.
+func freshName(step, j int) string {
+	return fmt.Sprintf("f%d.s%d.fresh.test", j, step)
+}
+
 func run(check string, c Case) kit.Verdict {
-	if err := authority(); err != nil {
-		return kit.Failf("C06/setup/new-authority-error", "mitm.NewAuthority: %v", err)
+	auth, err := authority(c.CA)
+	if err != nil {
+		return kit.Failf("C06/setup/new-authority-error", "building the authorities: %v", err)
 	}
-	cfg, err := mitm.NewConfig(authCA, authKey)
+	cfg, err := mitm.NewConfig(auth.cert, auth.key)
 	if err != nil {
 		return kit.Failf("C06/setup/new-config-error", "mitm.NewConfig: %v", err)
 	}
@@ -497,7 +628,7 @@ func run(check string, c Case) kit.Verdict {
 	if c.Short {
 		cfg.SetValidity(shortValidity)
 	}
-	x := &exec{check: check, c: c, cfg: cfg, seen: map[string]bool{}}
+	x := &exec{check: check, c: c, cfg: cfg, ca: auth, seen: map[string]bool{}, judged: map[judgedKey]bool{}}
 	have := map[string]bool{}
 	add := func(name, canon string) {
 		if name != "" && !have[canon] {
@@ -598,7 +729,7 @@ func analyse(c Case) caseInfo {
 		case "conc":
 			for _, w := range op.Workers {
 				visit("", w.Host, w.Sni, w.Hs)
-				if !w.Hs && w.Reps > 1 {
+				if !w.Hs && (w.Reps > 1 || w.Fresh > 0) {
 					ci.hit = true
 				}
 			}
@@ -625,7 +756,7 @@ func classes(c Case) []string {
 		{ci.ip, "ip-literal"}, {ci.v6bare, "ipv6-bare"}, {ci.v6port, "ipv6-bracket-port"}, {ci.port, "host-port"},
 		{ci.mixed, "mixed-case"}, {ci.hit, "cache-hit"}, {ci.crossing, "expiry-crossing"}, {ci.conc, "concurrent"},
 		{ci.handshake, "handshake"}, {ci.tls12, "tls12"}, {ci.noName, "no-name"}, {ci.sni, "sni"},
-		{ci.sniDiffers, "sni-differs-from-fallback"}, {ci.std, "std-client"}, {ci.apiTLS, "api-tls"}, {c.Short, "short-validity"},
+		{ci.sniDiffers, "sni-differs-from-fallback"}, {ci.std, "std-client"}, {ci.apiTLS, "api-tls"}, {c.Short, "short-validity"}, {c.CA == "ecdsa", "ecdsa-authority"},
 	} {
 		if kv.on {
 			out = append(out, kv.name)
